@@ -26,7 +26,7 @@ MODULES = {  # property -> harness modules
     "C06": ["harness.c06"], "C07": ["harness.c07"], "C08": ["harness.c08"], "C09": ["harness.c09"],
     "C10": ["harness.c10"], "C11": ["harness.c11"], "C12": ["harness.c12"], "C13": ["harness.c13"],
     "C14": ["harness.c14"], "C15": ["harness.c15"], "C16": ["harness.c16"], "C17": ["harness.c17"],
-    "C19": ["harness.c19"], "C20": ["harness.c20"],
+    "C19": ["harness.c19"], "C20": ["harness.c20"], "SELFTEST": ["harness.selftest"],
 }
 
 
